@@ -405,6 +405,10 @@ where
             return Poll::Ready(Ok(Some((id, RecvStream::new(stream)))));
         }
 
+        // The stream may be resolved while another task (accept_bi, the connection driver)
+        // polls the connection: ask to be woken when one is stored.
+        streams.wt_uni_waker = Some(cx.waker().clone());
+
         Poll::Pending
     }
 }
